@@ -434,7 +434,7 @@ impl Statics {
             .iter()
             .filter(|c| {
                 let (sub, _) = cx.g.induced(**c);
-                Fams::new(&sub).co.len() >= 2
+                Fams::auto(&sub).map_or(false, |f| f.co.len() >= 2)
             })
             .count();
         for q in [Q::DC, Q::DS] {
